@@ -7,6 +7,15 @@ coq/Graph/WfProofs.v, exported by Props/C02.v) are evaluated on them inside Coq.
 onnx.checker (check_model full_check=True / check_function).  Near-miss stream: one grammar-violating
 mutation per program must be refused at decoration time with one of the exception classes the source
 raises on purpose; an accepted near miss is checked like any accepted program.
+
+Subscript stream: programs of the same grammar with tensor subscripts at every nesting position (c01_gen.gen_subscript_program
++ corpus/C01/subscript.json).  Script/Syntax.v has no subscript expression, so for these there is no converter-model theorem:
+the verified checkers are evaluated on the real protos and onnx.checker is run, as for every other accepted program.
+
+Name-resolution near misses (c01_gen.name_near_miss): a variable assigned on only one path (one branch of an if, the body
+of a loop that may run zero times) and used afterwards, whose name also denotes a module-level global / closure variable /
+module-level script function / converter-generated value name.  In Python the name is local to the function and unbound on
+the other path, so the program must be refused whatever the module contains; acceptance is a violation.
 """
 from __future__ import annotations
 
@@ -20,7 +29,14 @@ PROPERTY = "C02"
 LEVEL = "proof"
 
 
-crash_site = c01_run.crash_site
+def crash_site(e):
+    """Site of an internal crash; a crash inside the subscript translation is keyed by what it was doing."""
+    import traceback as _tb
+    frames = [fr for fr in _tb.extract_tb(e.__traceback__) if "onnxscript" in fr.filename]
+    for fr in frames:
+        if fr.name == "_translate_subscript_expr" and '"Identity"' in (fr.line or "") and "_add_usage" in str(e):
+            return "converter._translate_subscript_expr:identity-of-unindexed-value"
+    return c01_run.crash_site(e)
 
 
 def classify_checker_error(txt):
@@ -114,6 +130,8 @@ def observe_accepted(ctx, mod, prog, source, stream, kind, coll, stats):
                 key = "C02:check_model:loop-state-listed-in-two-orders"
             elif c01_run.subgraph_lists_value_twice(fp):
                 key = "C02:check_model:subgraph-lists-a-value-twice"
+            elif "Field 'shape' of 'type' is required but missing" in err and "[...]" in source:
+                key = "C02:check_model:unknown-rank-annotation:value-info-without-shape"
             else:
                 key = f"C02:check_model:{cls}"
             ctx.violation(key, f"onnx.checker.check_model(full_check=True) rejects the ModelProto of an accepted program: {err[:300]}", replay)
@@ -189,6 +207,139 @@ def eval_checkers(ctx, coll, stats):
     return bad_total
 
 
+def model_side_tie(ctx, model_side, stats):
+    """The tie of C02_translate_wf_straightline_partial (a theorem about the converter *model*) to converter.py, and
+    evidence for C02_translate_wf_full: on programs of the valid stream, inside Coq,
+      (a) the model's graph = the real function_ir, names included (Script/Corr.v; where they differ the model's `legacy`
+          switch -- the confirmed defects the model repairs -- must explain it),
+      (b) wf_graphb / no_input_returned hold of the model's graph (straight-line programs: the theorem; others: the full
+          statement observed)."""
+    from harness import c01
+    cases, lcases, meta = [], [], []
+    for (i, prog, src, mod, exc, events) in model_side:
+        d = c01.Decorated(i, prog, src, mod, exc, events)
+        for fp in d.funcs:
+            if exc is not None and fp["name"] not in events:
+                continue
+            try:
+                txt, _loops, acc = c01.translate_case(d, fp)
+                ltxt = c01.translate_case(d, fp, legacy=True)[0]     # the unrepaired code lists the loop state twice
+            except TypeError:
+                continue          # a construct Script/Syntax.v has no constructor for
+            cases.append(txt)
+            lcases.append(ltxt)
+            straight = all(st[0] in ("assign", "tassign", "return") for st in fp["body"])
+            meta.append((d, fp, acc, straight))
+    B = 40
+    bodies = []
+    for lo in range(0, len(cases), B):
+        bodies.append(f"Open Scope string_scope.\nDefinition cases : list tcase := {clist(cases[lo:lo + B])}.\n"
+                      f"Definition lcases : list tcase := {clist(lcases[lo:lo + B])}.\n"
+                      "Eval vm_compute in (tdisagreeing false 0 cases).\n"
+                      "Eval vm_compute in (tdisagreeing true 0 lcases).\n"
+                      "Fixpoint notwf (i : nat) (l : list tcase) : list nat :=\n"
+                      "  match l with [] => [] | c :: t => (match model_of false c with Some g => if wf_graphb g && no_input_returned g then [] else [i] | None => [] end) ++ notwf (S i) t end.\n"
+                      "Eval vm_compute in (notwf 0 cases).\n")
+    res = c01_run.coq_eval_par(ctx, c01.SCRIPT_REQ + ["OV.Graph.Wf", "OV.Script.Translate", "OV.Script.Corr"], bodies, "c02_model")
+    differ, unexplained, notwf = [], [], []
+    ok_eval = bool(res) or not cases
+    for k, (ok, vals, raw) in enumerate(res):
+        if not ok or len(vals) != 3:
+            ctx.tie_broken("correspondence", "translate:model-evaluation", raw[-1500:])
+            ok_eval = False
+            continue
+        d0 = set(common.parse_nat_list(vals[0]))
+        d1 = set(common.parse_nat_list(vals[1]))
+        differ += [k * B + j for j in sorted(d0)]
+        unexplained += [k * B + j for j in sorted(d0 & d1)]
+        notwf += [k * B + j for j in common.parse_nat_list(vals[2])]
+    for j in unexplained[:3]:
+        d, fp, acc, _s = meta[j]
+        ctx.tie_broken("correspondence", "translate:" + fp["name"],
+                       ("real converter " + ("accepted" if acc else "refused") + ", Script/Translate.v differs, on\n") + d.source)
+    for j in notwf[:3]:
+        d, fp, acc, straight = meta[j]
+        ctx.tie_broken("proof" if straight else "correspondence", "translate_wf:" + fp["name"],
+                       "wf_graphb / no_input_returned is false of the graph Script/Translate.v produces for\n" + d.source)
+    n_straight = sum(1 for m in meta if m[3] and m[2])
+    ctx.obligation(f"correspondence translate (tie of C02_translate_wf_*): Script/Translate.v = real function_ir on {len(cases)} functions of the valid "
+                   f"stream ({n_straight} straight-line and accepted; {len(differ) - len(unexplained)} differences explained by the confirmed defects "
+                   "the model repairs)", ok_eval and not unexplained)
+    ctx.obligation(f"C02_translate_wf_full observed: wf_graphb && no_input_returned = true of the model's graph for every one of the {len(cases)} functions "
+                   "the model accepts (nested if / for / while included)", ok_eval and not notwf)
+    ctx.cover(model_side_functions=len(cases), model_side_straightline_accepted=n_straight, model_differs_explained_by_known_defects=len(differ) - len(unexplained),
+              model_differs_unexplained=len(unexplained), model_graph_not_wf=len(notwf))
+
+
+def subscript_stream(ctx, wd, rng, n, coll, stats):
+    feats = collections.Counter()
+    progs = c01_gen.load_subscript_corpus()
+    n_corpus = len(progs)
+    progs = progs + [c01_gen.gen_subscript_program(rng, i) for i in range(n)]
+    for i, prog in enumerate(progs):
+        src = c01_gen.to_source(prog)
+        mod, exc = c01_run.load(wd, f"c02_s{i}", src)
+        ctx.case(("subscript", ("corpus:" + prog["name"]) if i < n_corpus else c01_gen.shape_key(prog)))
+        for ft in prog["features"]:
+            feats[ft] += 1
+        if i == n_corpus:
+            ctx.sample({"stream": "subscript", "source": src})
+        if exc is not None:
+            cls = c01_run.exc_class(exc)
+            stats["subscript_refused"] += 1
+            if cls not in c01_run.DESCRIPTIVE:
+                ctx.violation(f"C02:crash:{cls}@{crash_site(exc)}",
+                              f"the decorator crashed with an internal {cls} ({str(exc)[:120]!r}) instead of refusing the program with a located message",
+                              {"stream": "subscript", "source": src, "traceback": "".join(traceback.format_exception(exc))[-1500:]})
+        else:
+            stats["subscript_accepted"] += 1
+            observe_accepted(ctx, mod, prog, src, "subscript", None, coll, stats)
+    ctx.obligation("subscript stream not degenerate: at least half of its programs are accepted by the decorator",
+                   stats["subscript_accepted"] * 2 >= len(progs), f"accepted {stats['subscript_accepted']} of {len(progs)}")
+    return feats
+
+
+def name_resolution_stream(ctx, wd, rng, reps, stats):
+    """Every (where, clash) combination on `reps` base programs each."""
+    outcome = collections.Counter()
+    k = 0
+    for rep in range(reps):
+        for where in c01_gen.NAME_WHERE:
+            for clash in c01_gen.NAME_CLASH:
+                base = c01_gen.gen_program(rng, 9000 + k, straight=(k % 3 == 0))
+                src, var = c01_gen.name_near_miss(base, where, clash, rng)
+                mod, exc = c01_run.load(wd, f"c02_r{k}", src)
+                k += 1
+                ctx.case(("name-resolution", where, clash))
+                if k <= 2:
+                    ctx.sample({"stream": "name-resolution", "where": where, "clash": clash, "source": src})
+                where_cls = "loop-body-only" if where in ("for-body-only", "while-body-only") else "if-branch-only"
+                clash_cls = "module-global" if clash.startswith("module-global") else clash
+                replay = {"stream": "name-resolution", "where": where, "clash": clash, "variable": var, "source": src}
+                if exc is None:
+                    outcome[f"{where} x {clash} -> accepted"] += 1
+                    stats["name_near_miss_accepted"] += 1
+                    detail = ""
+                    try:
+                        f = getattr(mod, base["name"])
+                        err = c01_run.check_model(f.to_model_proto())
+                        detail = "; the emitted model " + ("passes onnx.checker, nothing flags it later" if err is None else "is malformed: " + err[:200])
+                    except Exception as e:  # noqa: BLE001
+                        detail = f"; to_model_proto() then raises {type(e).__name__}: {str(e)[:120]}"
+                    ctx.violation(f"C02:near-miss-accepted:{where_cls}:{clash_cls}",
+                                  f"`{var}` is assigned on only one path ({where}) and used afterwards, i.e. unbound on the other path in Python, "
+                                  f"yet the decorator accepted the program because the name also denotes a {clash}{detail}", replay)
+                else:
+                    cls = c01_run.exc_class(exc)
+                    outcome[f"{where} x {clash} -> {cls}"] += 1
+                    stats["name_near_miss_refused"] += 1
+                    if cls not in c01_run.DESCRIPTIVE:
+                        ctx.violation(f"C02:crash:{cls}@{crash_site(exc)}",
+                                      f"the decorator crashed with an internal {cls} ({str(exc)[:120]!r}) instead of refusing the program with a located message",
+                                      dict(replay, traceback="".join(traceback.format_exception(exc))[-1500:]))
+    return outcome
+
+
 def run(ctx):
     ctx.assume("onnx.checker (check_model full_check=True, check_function) is an oracle: its C++ code is outside the model")
     ctx.assume("generated programs are well typed under the ONNX reading (typed grammar); the checker is only run on such programs")
@@ -203,13 +354,18 @@ def run(ctx):
     nm_outcome = collections.Counter()
     feats = collections.Counter()
     coll = Collected()
+    model_side = []
+    n_model = 90 if quick else 700
     try:
         corpus = c01_gen.load_corpus()
         for i in range(-len(corpus), n_prog):
             straight = (i % 10 == 0)
             prog = corpus[i + len(corpus)] if i < 0 else c01_gen.gen_program(rng, i, straight=straight)
             src = c01_gen.to_source(prog)
-            mod, exc = c01_run.load(wd, f"c02_m{i}".replace("-", "c"), src)
+            with c01_run.ConverterTrace() as tr:
+                mod, exc = c01_run.load(wd, f"c02_m{i}".replace("-", "c"), src)
+            if len(model_side) < n_model:
+                model_side.append((i, prog, src, mod, exc, tr.events))
             key = c01_gen.shape_key(prog)
             ctx.case(("valid", key))
             for ft in prog["features"]:
@@ -248,12 +404,24 @@ def run(ctx):
                                   f"the decorator crashed with an internal {cls} ({str(exc2)[:120]!r}) instead of refusing the program with a located message",
                                   {"stream": "near-miss", "near_miss": kind, "source": nsrc,
                                    "traceback": "".join(traceback.format_exception(exc2))[-1500:]})
+        # ---- subscript stream + name-resolution near misses (own generator: the streams above are unchanged)
+        import random as _random
+        sub_rng = _random.Random(rng.getrandbits(64))
+        sub_feats = subscript_stream(ctx, wd, sub_rng, 60 if quick else 900, coll, stats)
+        name_outcome = name_resolution_stream(ctx, wd, sub_rng, 2 if quick else 12, stats)
         bad = eval_checkers(ctx, coll, stats)
+        model_side_tie(ctx, model_side, stats)
     finally:
         wd.close()
     accepted = stats["valid_accepted"]
     ctx.obligation("generator not degenerate: at least half of the valid stream is accepted by the decorator", accepted * 2 >= n_prog,
                    f"accepted {accepted} of {n_prog}")
+    ctx.cover(subscript_rule="c01_gen.gen_subscript_program: the same grammar with tensor subscripts as expressions at every nesting position "
+                             "(integer indices, slices with literal / omitted / run-time INT64 bounds incl. 0 and negative steps, multi-axis, "
+                             "the same constants in sibling scopes) + the named shapes of corpus/C01/subscript.json",
+              name_resolution_rule="every combination of where the only assignment is (then / else / if without else / nested if / for body / "
+                                   "while body) x what else the name denotes (nothing, module float / int / array, closure variable, module-level "
+                                   "script function, converter-generated name) inserted into a generated program; must be refused")
     ctx.cover(rule="typed random programs of the ONNX Script subset (<=3 tensor params, <=2 attribute params, if/for/while nested to depth 2, "
                    "trailing break, one/both-branch definitions, loop-carried and captured variables, sub-function calls, Split/TopK, literals "
                    "in every operand position, names colliding with converter-generated names) + one grammar-violating mutation each; "
@@ -263,6 +431,11 @@ def run(ctx):
               verified_checker_false=dict(bad),
               valid_refusals=dict(refusal.most_common(12)),
               near_miss_outcomes=dict(sorted(nm_outcome.items())),
-              feature_counts=dict(sorted(feats.items())))
+              feature_counts=dict(sorted(feats.items())),
+              subscript_stream_feature_counts=dict(sorted(sub_feats.items())),
+              name_resolution_near_miss_outcomes=dict(sorted(name_outcome.items())))
+    ctx.assume("subscript stream: Script/Syntax.v has no subscript expression, so C02_translate_wf_* say nothing about programs containing "
+               "subscripts; for those well-formedness is established per generated program only (verified checkers evaluated in Coq on "
+               "the real protos + onnx.checker)")
     if ctx.tier == "thorough":
         ctx.coqchk(["Props.C02"])
